@@ -713,6 +713,8 @@ def _worker(job):
     hashes.update(sess.repo.hashes)
     from pyvc import values as _values
     hashes['$global_writes'] = dict(_values.GLOBAL_WRITES)
+    for _k, _v in _values.GLOBAL_READS.items():
+        hashes['$global_writes']['read of the rebindable module variable ' + _k] = _v
     return out, hashes
 
 
